@@ -185,7 +185,7 @@ PROPS = {
         theorems=['C19_small_ids_faithful', 'C19_small_ids_injective', 'C19_refuted', 'C19_contract_faithful', 'C19_contract_injective', 'C19_contract_published'],
         runs=[func('tok', 'tokenid', 2000, 100000, 'tok_mismatches', 'tok_check', fields=[1, 2, 3], shards_quick=4, shards_thorough=16),
               chain('adv', 'adversarial', 16, 400, 'check_C19'),
-              chain('settle', 'settlement', 24, 800, 'check_C19')],
+              chain('settle', 'settlement', 64, 1200, 'check_C19')],
         fields=[3, 6, 20],
         rule="pairs of token-id strings: small, leading zeros, mixed case, 64-bit, 2^160-1 / 2^160 / 2^160+1, multiples of 2^160 plus a small number, 256-bit, signed (0x+f, 0x-1), malformed; MsgRecord.ValidateBasic verdict, the stored identity (NormalizeHexAddress) and the denoted number (big.Int) from the real functions; chain histories (contract addresses spelled with 0x, 0X, without prefix, mixed case) compare the stored / published NFT with the model and check every accepted record message against the NFT pending at the end of its block; non-trivial: both ids accepted",
         assumptions=["KNOWN FINDING F20: the property is false of the code for token ids >= 2^160 or with a sign; collapses involving such an id are reported as KNOWN-FINDING, a collapse or misrecording of ids below 2^160 as a violation"]),
